@@ -2,6 +2,7 @@ package ast
 
 import (
 	"fmt"
+	"reflect"
 
 	"github.com/google/go-cmp/cmp"
 	"github.com/grafana/cog/internal/tools"
@@ -788,6 +789,16 @@ func (t *EnumType) AcceptsValue(value any) bool {
 	return ok
 }
 
+// isNumber tells whether tools.AnyToInt64() can convert the value.
+func isNumber(value any) bool {
+	switch value.(type) {
+	case int, int8, int16, int32, int64, float32, float64:
+		return true
+	}
+
+	return false
+}
+
 func (t EnumType) MemberForValue(value any) (EnumValue, bool) {
 	if len(t.Values) == 0 {
 		return EnumValue{}, false
@@ -797,11 +808,18 @@ func (t EnumType) MemberForValue(value any) (EnumValue, bool) {
 		return t.Values[0], false
 	}
 
+	// the values of the members and the value looked for come from the input
+	// documents: nothing guarantees that they are numbers, or even comparable
+	// (`{"enum": [{"a": 1}, [1]]}`)
 	equal := func(a, b any) bool {
-		return a == b
+		return reflect.DeepEqual(a, b)
 	}
-	if t.Values[0].Type.Scalar.ScalarKind != KindString {
+	if t.Values[0].Type.Scalar != nil && t.Values[0].Type.Scalar.ScalarKind != KindString {
 		equal = func(a, b any) bool {
+			if !isNumber(a) || !isNumber(b) {
+				return reflect.DeepEqual(a, b)
+			}
+
 			return tools.AnyToInt64(a) == tools.AnyToInt64(b)
 		}
 	}
